@@ -15,6 +15,7 @@ CONSTANTS
   Planned = FALSE
   MaxPlan = 36
   InitStores = {}
+  LateStart = FALSE
   LogSched = FALSE
   KeepLog = FALSE
   MenuGuard <- TGuard
